@@ -29,6 +29,9 @@ def str_keys(d: ast.Dict):
 def dispatcher(ctx):
     """(func, dict node) — the method holding the dict literal keyed by LSP
     method names."""
+    memo = getattr(ctx, "_dispatcher_memo", None)
+    if memo is not None and memo[0] is ctx.m:
+        return memo[1]
     hits = []
     for f in ctx.m.funcs.values():
         for n in ctx.m.walk_own(f.node):
@@ -38,6 +41,10 @@ def dispatcher(ctx):
                     hits.append((f, n))
     if len(hits) != 1:
         raise AnalysisError(f"dispatcher (dict literal keyed by LSP method names): found {len(hits)}")
+    try:
+        ctx._dispatcher_memo = (ctx.m, hits[0])
+    except AttributeError:
+        pass
     return hits[0]
 
 
